@@ -12,6 +12,8 @@ func init() {
 		Run: func(c *Ctx) []core.Ob {
 			obs := c.VarLen()
 			obs = append(obs, filterObs(c.BitFields("net/packet"), func(o core.Ob) bool { return strings.Contains(o.Key, "VarInt") || strings.Contains(o.Key, "VarLong") })...)
+			obs = append(obs, c.GroupOrder("net/packet")...)
+			obs = append(obs, filterObs(c.NoReadAhead(), func(o core.Ob) bool { return strings.Contains(o.Key, "packet") || o.Key == "scope" })...)
 			return obs
 		},
 	}
@@ -21,6 +23,9 @@ func init() {
 			obs := c.RegionIndex()
 			obs = append(obs, c.RegionOrder()...)
 			obs = append(obs, c.RegionFindSpace()...)
+			obs = append(obs, c.RegionSlotOffsets()...)
+			obs = append(obs, c.TableLoopsCover("save/region")...)
+			obs = append(obs, c.SignedNarrowing("save/region")...)
 			in := pkgPred("save/region")
 			obs = append(obs, c.TLGObs(in, in, false)...)
 			obs = append(obs, c.ErrFlow(in, in)...)
@@ -47,6 +52,8 @@ func init() {
 			obs := c.RCONFrame()
 			obs = append(obs, c.RCONPolarity()...)
 			obs = append(obs, c.RCONReqID()...)
+			obs = append(obs, c.RCONWriterLimit()...)
+			obs = append(obs, filterObs(c.RawRead(), func(o core.Ob) bool { return strings.HasPrefix(o.Key, "net.") })...)
 			obs = append(obs, filterObs(c.NoReadAhead(), func(o core.Ob) bool { return o.Key != "scope" || true })...)
 			in := c.reachFromTypes("net", []string{"RCONConn"}, "DialRCON")
 			obs = append(obs, c.TLGObs(in, in, false)...)
@@ -61,6 +68,8 @@ func init() {
 			obs = append(obs, c.SignatureHashOrder()...)
 			obs = append(obs, c.BitFields("offline")...)
 			obs = append(obs, c.RippleCarry("bot", "server/auth")...)
+			obs = append(obs, c.TrustAnchorImmutable("yggdrasil/user")...)
+			obs = append(obs, c.FixedBufferCopies("offline", "yggdrasil/user", "bot", "server/auth")...)
 			return obs
 		},
 	}
